@@ -1194,3 +1194,237 @@ Proof.
     repeat (first [rewrite Ep|rewrite En|rewrite E1|rewrite En1|rewrite Ep1|rewrite E2]; cbn beta iota).
     exact E3.
 Qed.
+
+(* ------------------------------------------------------------------ swap_ / swap_node *)
+Lemma in_hd_app_l {A} (l1 l2 : list A) d : l1 <> [] -> In (hd d l1) (l1 ++ l2).
+Proof. intros H. apply in_or_app. left. apply in_hd; auto. Qed.
+Lemma in_last_app_l {A} (l1 l2 : list A) d : l1 <> [] -> In (last l1 d) (l1 ++ l2).
+Proof. intros H. apply in_or_app. left. apply in_last; auto. Qed.
+
+(* two disjoint, non adjacent sections s1, s2 of one ring  s1 ++ a ++ s2 ++ b  (a, b non empty) *)
+Lemma swap__same_ring h s1 a s2 b :
+  Ring h (s1 ++ a ++ s2 ++ b) -> s1 <> [] -> a <> [] -> s2 <> [] -> b <> [] ->
+  exists h', l_swap_ h (hd0 s1) (last s1 0) (hd0 s2) (last s2 0) = Some h' /\
+    Ring h' (s2 ++ a ++ s1 ++ b) /\
+    Frame h h' (s1 ++ a ++ s2 ++ b) /\ (forall x, live h' x <-> live h x).
+Proof.
+  intros R H1 Ha H2 Hb.
+  (* the four reads *)
+  assert (E1 : rd_next h (last s2 0) = Some (hd0 b)).
+  { apply (Ring_seam h (s1 ++ a) s2 b []); auto. rewrite app_nil_r, <- app_assoc. exact R. }
+  assert (E2 : rd_prev h (hd0 s2) = Some (last a 0)).
+  { apply (Ring_seam h s1 a s2 b); auto. }
+  assert (E3 : rd_next h (last s1 0) = Some (hd0 a)).
+  { apply (Ring_seam h [] s1 a (s2 ++ b)); auto. }
+  assert (E4 : rd_prev h (hd0 s1) = Some (last b 0)).
+  { apply (Ring_seam_wrap h s1 (a ++ s2) b); auto. rewrite <- app_assoc. exact R. }
+  (* the four pieces *)
+  assert (S0 : Soup h [b; s2; a; s1]).
+  { pose proof (Ring_Soup _ _ R) as S. apply Soup_split in S.
+    apply (Soup_perm h _ [a ++ s2 ++ b; s1]) in S; [|perm_tac]. apply Soup_split in S.
+    apply (Soup_perm h _ [s2 ++ b; a; s1]) in S; [|perm_tac]. apply Soup_split in S.
+    apply (Soup_perm h _ [b; s2; a; s1]) in S; [|perm_tac]. exact S. }
+  destruct (Soup_join_exec h b s2 [a; s1] S0 Hb H2) as (h1 & L1 & S1 & P1).
+  assert (Hbs : b ++ s2 <> []) by (destruct b; simpl; congruence).
+  destruct (Soup_join_exec h1 (b ++ s2) a [s1] S1 Hbs Ha) as (h2 & L2 & S2 & P2).
+  rewrite last_app_nonnil in L2, P2 by assumption.
+  assert (Hbsa : (b ++ s2) ++ a <> []) by (destruct b; simpl; congruence).
+  destruct (Soup_join_exec h2 ((b ++ s2) ++ a) s1 [] S2 Hbsa H1) as (h3 & L3 & S3 & P3).
+  rewrite last_app_nonnil in L3, P3 by assumption.
+  assert (Hall : ((b ++ s2) ++ a) ++ s1 <> []) by (destruct b; simpl; congruence).
+  destruct (Soup_close_exec h3 (((b ++ s2) ++ a) ++ s1) [] S3 Hall) as (h4 & L4 & S4 & Ed & P4).
+  rewrite last_app_nonnil in L4, P4, Ed by assumption.
+  rewrite !hd_app_nonnil in L4, P4, Ed by assumption.
+  exists h4. split; [|split; [|split]].
+  - unfold l_swap_, l_add_. rewrite E1, E2, E3, E4, L1. cbn beta iota. rewrite L2. cbn beta iota.
+    rewrite L3. exact L4.
+  - assert (R' : Ring h4 (((b ++ s2) ++ a) ++ s1)).
+    { apply (Ring_intro _ _ 0); auto.
+      rewrite last_app_nonnil by assumption. rewrite !hd_app_nonnil by assumption. exact Ed. }
+    rewrite <- !app_assoc in R'. apply (Ring_rot h4 b (s2 ++ a ++ s1)) in R'.
+    rewrite <- !app_assoc in R'. exact R'.
+  - assert (I1 : In (hd0 s1) (s1 ++ a ++ s2 ++ b)) by (apply in_hd_app_l; auto).
+    assert (I2 : In (last s1 0) (s1 ++ a ++ s2 ++ b)) by (apply in_last_app_l; auto).
+    assert (I3 : In (hd0 a) (s1 ++ a ++ s2 ++ b)) by (apply in_or_app; right; apply in_hd_app_l; auto).
+    assert (I4 : In (last a 0) (s1 ++ a ++ s2 ++ b)) by (apply in_or_app; right; apply in_last_app_l; auto).
+    assert (I5 : In (hd0 s2) (s1 ++ a ++ s2 ++ b))
+      by (apply in_or_app; right; apply in_or_app; right; apply in_hd_app_l; auto).
+    assert (I6 : In (last s2 0) (s1 ++ a ++ s2 ++ b))
+      by (apply in_or_app; right; apply in_or_app; right; apply in_last_app_l; auto).
+    assert (I7 : In (hd0 b) (s1 ++ a ++ s2 ++ b))
+      by (apply in_or_app; right; apply in_or_app; right; apply in_or_app; right; apply in_hd; auto).
+    assert (I8 : In (last b 0) (s1 ++ a ++ s2 ++ b))
+      by (apply in_or_app; right; apply in_or_app; right; apply in_or_app; right; apply in_last; auto).
+    intros x Hx.
+    rewrite (LinkPost_Frame_in _ _ _ _ _ P4 I2 I7 x Hx), (LinkPost_Frame_in _ _ _ _ _ P3 I4 I1 x Hx),
+            (LinkPost_Frame_in _ _ _ _ _ P2 I6 I3 x Hx), (LinkPost_Frame_in _ _ _ _ _ P1 I8 I5 x Hx).
+    reflexivity.
+  - intros x. rewrite (lp_live _ _ _ _ P4), (lp_live _ _ _ _ P3), (lp_live _ _ _ _ P2). apply (lp_live _ _ _ _ P1).
+Qed.
+
+Lemma concat_disj {A} (ps : list (list A)) i j p q x :
+  NoDup (concat ps) -> nth_error ps i = Some p -> nth_error ps j = Some q -> i <> j ->
+  In x p -> In x q -> False.
+Proof.
+  revert i j. induction ps as [|r ps IH]; intros i j N Hi Hj Hij Hp Hq.
+  - destruct i; discriminate.
+  - simpl in N. destruct i as [|i], j as [|j]; simpl in *.
+    + congruence.
+    + inversion Hi; subst. eapply NoDup_app_disj; eauto. apply in_concat. exists q. split; auto.
+      eapply nth_error_In; eauto.
+    + inversion Hj; subst. eapply NoDup_app_disj; eauto. apply in_concat. exists p. split; auto.
+      eapply nth_error_In; eauto.
+    + eapply (IH i j); eauto. eapply NoDup_app_r; eauto.
+Qed.
+
+(* nodes taken from two different pieces of a soup are different *)
+Lemma Soup_neq h ps i j p q x y :
+  Soup h ps -> nth_error ps i = Some p -> nth_error ps j = Some q -> i <> j ->
+  In x p -> In y q -> x <> y.
+Proof. intros [N _] Hi Hj Hij Hx Hy E. subst. exact (concat_disj ps i j p q y N Hi Hj Hij Hx Hy). Qed.
+
+Lemma Ring_link_other h x y h' l : Ring h l -> LinkPost h x y h' -> ~ In x l -> ~ In y l -> Ring h' l.
+Proof.
+  intros R P Hx Hy. eapply Ring_Frame; eauto using LinkPost_frame.
+  intros z Hz [<-|[<-|[]]]; auto.
+Qed.
+
+(* a section of one ring against a section of another ring *)
+Lemma swap__two_rings h s1 a s2 b :
+  Ring h (s1 ++ a) -> Ring h (s2 ++ b) -> Soup h [s1 ++ a; s2 ++ b] ->
+  s1 <> [] -> a <> [] -> s2 <> [] -> b <> [] ->
+  exists h', l_swap_ h (hd0 s1) (last s1 0) (hd0 s2) (last s2 0) = Some h' /\
+    Ring h' (s2 ++ a) /\ Ring h' (s1 ++ b) /\
+    Frame h h' ((s1 ++ a) ++ s2 ++ b) /\ (forall x, live h' x <-> live h x).
+Proof.
+  intros Ra Rb S H1 Ha H2 Hb.
+  assert (E1 : rd_next h (last s2 0) = Some (hd0 b)).
+  { apply (Ring_seam h [] s2 b []); auto. rewrite app_nil_r. exact Rb. }
+  assert (E2 : rd_prev h (hd0 s2) = Some (last b 0)).
+  { apply (Ring_seam_wrap h s2 [] b); auto. }
+  assert (E3 : rd_next h (last s1 0) = Some (hd0 a)).
+  { apply (Ring_seam h [] s1 a []); auto. rewrite app_nil_r. exact Ra. }
+  assert (E4 : rd_prev h (hd0 s1) = Some (last a 0)).
+  { apply (Ring_seam_wrap h s1 [] a); auto. }
+  assert (S0 : Soup h [a; s2; b; s1]).
+  { apply Soup_split in S. apply (Soup_perm h _ [s2 ++ b; s1; a]) in S; [|perm_tac].
+    apply Soup_split in S. apply (Soup_perm h _ [a; s2; b; s1]) in S; [|perm_tac]. exact S. }
+  destruct (Soup_join_exec h a s2 [b; s1] S0 Ha H2) as (h1 & L1 & S1 & P1).
+  assert (Has : a ++ s2 <> []) by (destruct a; simpl; congruence).
+  destruct (Soup_close_exec h1 (a ++ s2) [b; s1] S1 Has) as (h2 & L2 & S2 & Ed2 & P2).
+  assert (R2 : Ring h2 (a ++ s2)).
+  { apply (Ring_intro _ _ 0); auto. eapply Soup_pick; [exact S2|left; reflexivity]. }
+  rewrite last_app_nonnil in L2, P2 by assumption.
+  rewrite hd_app_nonnil in L2, P2 by assumption.
+  assert (S2' : Soup h2 [b; s1; a ++ s2]) by (apply (Soup_perm h2 [a ++ s2; b; s1]); [perm_tac|exact S2]).
+  destruct (Soup_join_exec h2 b s1 [a ++ s2] S2' Hb H1) as (h3 & L3 & S3 & P3).
+  assert (Hbs : b ++ s1 <> []) by (destruct b; simpl; congruence).
+  destruct (Soup_close_exec h3 (b ++ s1) [a ++ s2] S3 Hbs) as (h4 & L4 & S4 & Ed4 & P4).
+  assert (R4 : Ring h4 (b ++ s1)).
+  { apply (Ring_intro _ _ 0); auto. eapply Soup_pick; [exact S4|left; reflexivity]. }
+  rewrite last_app_nonnil in L4, P4 by assumption.
+  rewrite hd_app_nonnil in L4, P4 by assumption.
+  assert (NI : forall x, In x (b ++ s1) -> ~ In x (a ++ s2)).
+  { intros x Hx Hx'.
+    exact (concat_disj [b ++ s1; a ++ s2] 0%nat 1%nat _ _ x (Soup_NoDup _ _ S4) eq_refl eq_refl ltac:(discriminate) Hx Hx'). }
+  exists h4. split; [|split; [|split; [|split]]].
+  - unfold l_swap_, l_add_. rewrite E1, E2, E3, E4, L1. cbn beta iota. rewrite L2. cbn beta iota.
+    rewrite L3. exact L4.
+  - apply Ring_rot.
+    apply (Ring_link_other h3 (last s1 0) (hd0 b)); auto.
+    + apply (Ring_link_other h2 (last b 0) (hd0 s1)); auto.
+      * apply NI. apply in_last_app_l; auto.
+      * apply NI. apply in_or_app. right. apply in_hd; auto.
+    + apply NI. apply in_or_app. right. apply in_last; auto.
+    + apply NI. apply in_hd_app_l; auto.
+  - apply Ring_rot. exact R4.
+  - assert (I1 : In (hd0 s1) ((s1 ++ a) ++ s2 ++ b)) by (apply in_or_app; left; apply in_hd_app_l; auto).
+    assert (I2 : In (last s1 0) ((s1 ++ a) ++ s2 ++ b)) by (apply in_or_app; left; apply in_last_app_l; auto).
+    assert (I3 : In (hd0 a) ((s1 ++ a) ++ s2 ++ b))
+      by (apply in_or_app; left; apply in_or_app; right; apply in_hd; auto).
+    assert (I4 : In (last a 0) ((s1 ++ a) ++ s2 ++ b))
+      by (apply in_or_app; left; apply in_or_app; right; apply in_last; auto).
+    assert (I5 : In (hd0 s2) ((s1 ++ a) ++ s2 ++ b)) by (apply in_or_app; right; apply in_hd_app_l; auto).
+    assert (I6 : In (last s2 0) ((s1 ++ a) ++ s2 ++ b)) by (apply in_or_app; right; apply in_last_app_l; auto).
+    assert (I7 : In (hd0 b) ((s1 ++ a) ++ s2 ++ b))
+      by (apply in_or_app; right; apply in_or_app; right; apply in_hd; auto).
+    assert (I8 : In (last b 0) ((s1 ++ a) ++ s2 ++ b))
+      by (apply in_or_app; right; apply in_or_app; right; apply in_last; auto).
+    intros x Hx.
+    rewrite (LinkPost_Frame_in _ _ _ _ _ P4 I2 I7 x Hx), (LinkPost_Frame_in _ _ _ _ _ P3 I8 I1 x Hx),
+            (LinkPost_Frame_in _ _ _ _ _ P2 I6 I3 x Hx), (LinkPost_Frame_in _ _ _ _ _ P1 I4 I5 x Hx).
+    reflexivity.
+  - intros x. rewrite (lp_live _ _ _ _ P4), (lp_live _ _ _ _ P3), (lp_live _ _ _ _ P2). apply (lp_live _ _ _ _ P1).
+Qed.
+
+(* a_list_swap_node: the two nodes exchange their places (not adjacent, neither in a ring alone) *)
+Lemma swap_node_same_ring h l a r b :
+  Ring h (l :: a ++ r :: b) -> a <> [] -> b <> [] ->
+  exists h', l_swap_node h l r = Some h' /\ Ring h' (r :: a ++ l :: b) /\
+    Frame h h' (l :: a ++ r :: b) /\ (forall x, live h' x <-> live h x).
+Proof.
+  intros R Ha Hb. apply (swap__same_ring h [l] a [r] b R); auto; discriminate.
+Qed.
+
+Lemma swap_node_two_rings h l a r b :
+  Ring h (l :: a) -> Ring h (r :: b) -> Soup h [l :: a; r :: b] -> a <> [] -> b <> [] ->
+  exists h', l_swap_node h l r = Some h' /\ Ring h' (r :: a) /\ Ring h' (l :: b) /\
+    Frame h h' ((l :: a) ++ r :: b) /\ (forall x, live h' x <-> live h x).
+Proof.
+  intros Ra Rb S Ha Hb. apply (swap__two_rings h [l] a [r] b Ra Rb S); auto; discriminate.
+Qed.
+
+(* swapping a node with itself changes nothing that matters *)
+Lemma swap_node_self h l xs :
+  Ring h (l :: xs) ->
+  exists h', l_swap_node h l l = Some h' /\ Ring h' (l :: xs) /\
+    Frame h h' (l :: xs) /\ (forall x, live h' x <-> live h x).
+Proof.
+  intros R. destruct xs as [|x xs].
+  - (* ring of one node: four times link(l,l) *)
+    pose proof (Ring_next h [] l [] R) as En. pose proof (Ring_prev h [] l [] R) as Ep. cbn [hd last] in *.
+    destruct (link_self h l R) as (h1 & E1 & R1 & F1).
+    destruct (link_self h1 l R1) as (h2 & E2 & R2 & F2).
+    destruct (link_self h2 l R2) as (h3 & E3 & R3 & F3).
+    destruct (link_self h3 l R3) as (h4 & E4 & R4 & F4).
+    exists h4. split; [|split; [exact R4|split]].
+    + unfold l_swap_node, l_swap_, l_add_. rewrite En, Ep, E1. cbn beta iota. rewrite E2. cbn beta iota.
+      rewrite E3. exact E4.
+    + intros y Hy. rewrite F4, F3, F2, F1; auto.
+    + intros y. unfold live. destruct (N.eq_dec y l) as [->|Hn].
+      * split; intros _; eapply Ring_live; eauto; left; reflexivity.
+      * rewrite F4, F3, F2, F1; simpl; try tauto; intros [H|[]]; congruence.
+  - (* a -> l -> c with a = last, c = x: link(a,l); link(l,c) twice: the same values again *)
+    assert (En : rd_next h l = Some x) by (apply (Ring_next h [] l (x :: xs) R)).
+    assert (Ep : rd_prev h l = Some (last (x :: xs) l)) by (apply (Ring_prev h [] l (x :: xs) R)).
+    set (z := last (x :: xs) l) in *.
+    (* pieces: [l] and x :: xs, ring order  l :: x :: xs *)
+    assert (S0 : Soup h [x :: xs; [l]]).
+    { apply (Soup_perm h [[l]; x :: xs]); [perm_tac|]. apply (Soup_split h [l] (x :: xs)). apply Ring_Soup. exact R. }
+    assert (Hz : z = last (x :: xs) 0).
+    { unfold z. destruct (snoc_cases (x :: xs)) as [H|(m & y & ->)]; [discriminate|]. rewrite !last_last. reflexivity. }
+    assert (Hx : x :: xs <> []) by discriminate. assert (Hl : [l] <> []) by discriminate.
+    destruct (Soup_join_exec h (x :: xs) [l] [] S0 Hx Hl) as (h1 & L1 & S1 & P1).
+    destruct (Soup_close_exec h1 ((x :: xs) ++ [l]) [] S1) as (h2 & L2 & S2 & Ed2 & P2); [discriminate|].
+    rewrite last_last in L2, P2, Ed2. cbn [hd app] in L1, L2, P1, P2, Ed2. rewrite <- Hz in L1, P1.
+    assert (R2 : Ring h2 ((x :: xs) ++ [l])).
+    { apply (Ring_intro _ _ 0); auto; [discriminate|]. rewrite last_last. exact Ed2. }
+    (* second round: the ring is already in place *)
+    assert (S2' : Soup h2 [x :: xs; [l]]) by (apply (Soup_split h2 (x :: xs) [l]); exact S2).
+    destruct (Soup_join_exec h2 (x :: xs) [l] [] S2' Hx Hl) as (h3 & L3 & S3 & P3).
+    destruct (Soup_close_exec h3 ((x :: xs) ++ [l]) [] S3) as (h4 & L4 & S4 & Ed4 & P4); [discriminate|].
+    rewrite last_last in L4, P4, Ed4. cbn [hd app] in L3, L4, P3, P4, Ed4. rewrite <- Hz in L3, P3.
+    exists h4. split; [|split; [|split]].
+    + unfold l_swap_node, l_swap_, l_add_. rewrite En, Ep, L1. cbn beta iota. rewrite L2. cbn beta iota.
+      rewrite L3. exact L4.
+    + apply (Ring_rot h4 (x :: xs) [l]). apply (Ring_intro _ _ 0); auto; [discriminate|].
+      rewrite last_last. exact Ed4.
+    + assert (Iz : In z (l :: x :: xs)) by (right; rewrite Hz; apply in_last; discriminate).
+      assert (Il : In l (l :: x :: xs)) by (left; reflexivity).
+      assert (Ix : In x (l :: x :: xs)) by (right; left; reflexivity).
+      intros y Hy.
+      rewrite (LinkPost_Frame_in _ _ _ _ _ P4 Il Ix y Hy), (LinkPost_Frame_in _ _ _ _ _ P3 Iz Il y Hy),
+              (LinkPost_Frame_in _ _ _ _ _ P2 Il Ix y Hy), (LinkPost_Frame_in _ _ _ _ _ P1 Iz Il y Hy).
+      reflexivity.
+    + intros y. rewrite (lp_live _ _ _ _ P4), (lp_live _ _ _ _ P3), (lp_live _ _ _ _ P2). apply (lp_live _ _ _ _ P1).
+Qed.
